@@ -4,8 +4,11 @@
 package raft
 
 import (
+	"os"
+
 	"github.com/ipfs/ipfs-cluster/api"
 	"github.com/ipfs/ipfs-cluster/state"
+	"github.com/ipfs/ipfs-cluster/state/dsstate"
 
 	peer "github.com/libp2p/go-libp2p-core/peer"
 )
@@ -25,4 +28,33 @@ func verifHook(ev string, cc *Consensus, st state.State, t LogOpType, pin *api.P
 		pid = cc.host.ID()
 	}
 	h(ev, pid, st, t, pin)
+}
+
+// Default observer (see state/dsstate/verif_on.go): with VERIF_TRACE_FILE set
+// every applied operation is appended to the trace file with the pinset it
+// produced.
+func init() {
+	if os.Getenv("VERIF_TRACE_FILE") == "" {
+		return
+	}
+	VerifHook = func(ev string, pid peer.ID, st state.State, t LogOpType, pin *api.Pin) {
+		if ev != "Apply" {
+			return
+		}
+		m := map[string]interface{}{"ev": "Apply", "p": pid.Pretty(), "k": "pin", "cid": pin.Cid.String(),
+			"want": dsstate.VerifPinDigest(pin)}
+		if t == LogOpUnpin {
+			m["k"] = "unpin"
+			m["want"] = "none"
+		}
+		if dst, ok := st.(*dsstate.State); ok {
+			m["store"] = dsstate.VerifStoreID(dst)
+			ps, err := dsstate.VerifPinset(dst)
+			if err != nil {
+				m["err"] = err.Error()
+			}
+			m["st"] = ps
+		}
+		dsstate.VerifTraceEmit(m)
+	}
 }
